@@ -65,10 +65,11 @@ func (a *c36Singleton) PreStart(ctx *Context) error {
 	}
 	// the instance is being started: a gate inside PreStart lets other events happen between the
 	// cluster-wide name check of this spawn and its insertion into the local actor tree
-	st.w.wait(ctx.Context(), n, "PreStart")
+	// (whether the name is registered is sampled on entry: same step as the spawn's name check)
 	st.w.mu.Lock()
 	_, registered := st.w.actors[ctx.ActorName()]
 	st.w.mu.Unlock()
+	st.w.wait(ctx.Context(), n, "PreStart")
 	st.mu.Lock()
 	tot := 0
 	for _, k := range st.running {
